@@ -217,6 +217,7 @@ func c14One(rpcs [][2]string, bound int) *explore.Scenario {
 			if after != idle {
 				vsched.Fail(fam+"|not-idle:"+diffKey(idle, after)+"|"+rpcsKey(rpcs), "after %v the connection did not return to its idle state:\n%s", rpcs, diffStates(idle, after))
 			}
+			finishDirect(d, w, false)
 			// differential: a further call behaves as on a fresh connection
 			p := w.Rec("probe", "Unary")
 			vsched.GoNamed("probe", func() { w.CallUnary(d.CC, context.Background(), p, "x") })
